@@ -38,7 +38,8 @@ Variables T V : Type.
 Record file := File {
   f_id : Z;
   f_path : text;
-  f_syntax : option Z;                 (* Some n: the text does not parse, parsimonious reports line n (not modelled) *)
+  f_syntax : option (option Z);        (* the text does not parse: Some (Some n) - parsimonious reports line n (not modelled);
+                                          Some None - nested too deeply for the PEG engine (RecursionError): no line is claimed *)
   f_lines : list (line T V Z)          (* a reference names the number of the file it resolves to *)
 }.
 
@@ -72,7 +73,7 @@ Fixpoint read_obj (fuel : nat) (fs : list file) (bound : text) (lookups : list Z
             else (w0, Some no_loc)                                         (* UndefinedDataTypeError, raised in the referrer *)
           in
           match f_syntax f with
-          | Some n => (w, Some (ELoc (Some (f_path f)) (Some n)))
+          | Some n => (w, Some (ELoc (Some (f_path f)) n))
           | None =>
               match run T V Z world dep (fun n s w0 => add_print (bound, n, s) w0) (f_lines f) w with
               | Ok (_, w') => (w', None)
